@@ -1,7 +1,14 @@
 import CoapVerif.Model.RetransmitObserve
 import CoapVerif.Spec.Retransmit
 /-!
-# Finding F42 (C06): on the observe entrance a response that arrives before the acknowledgement does not end the exchange
+# Finding F42 (C06, FIXED): on the observe entrance a response that arrives before the acknowledgement did not end the exchange
+
+**Status: fixed** (udp/client/conn.go: `writeMessage` keeps token → message ID of the confirmable request it is writing in
+`requestMessageIDs`; `Conn.handle` calls `acknowledgeByResponse` before it dispatches a response by token).  Whether today's
+source has the repaired shape is the regenerated fact `Model.RetransmitObserve.wakesToday`
+(`Generated.Retransmit.responseAcknowledgesByToken`).  The witness theorems below stay, as theorems about the shape without
+the repair: each takes the flag and the hypothesis `wakes = false`.  The second part proves the positive statements for the
+repaired shape (`wakes = true`) and `today_is_repaired`.  What follows describes the finding as it was.
 
 Property text: "a confirmable request issued through the client API … if any one copy reaches the peer and the matching
 acknowledgement/response gets back before the attempts are exhausted, the request call succeeds with that response" and
@@ -30,19 +37,19 @@ def witness : List OEv := [.start, .notif 8, .advance 1001, .tick 0, .ack]
 
 /-- **The response does not end the wait for the message ID**: after the notification the entry is still pending, the pass
     at 1001 writes a second copy, and the call has not returned — it returns only with the acknowledgement. -/
-theorem observe_response_before_ack_does_not_end_the_wait :
-    (run P0 false [.start, .notif 8]).pend.isSome = true ∧ (run P0 false [.start, .notif 8]).ret = none ∧
-    (run P0 false [.start, .notif 8, .advance 1001, .tick 0]).copies = [1001, 0] ∧
-    (run P0 false [.start, .notif 8, .advance 1001, .tick 0]).ret = none ∧
-    (run P0 false witness).ret = some (.ok 8, 1001) := by decide
+theorem observe_response_before_ack_does_not_end_the_wait (wakes : Bool) (h : wakes = false) :
+    (run P0 wakes [.start, .notif 8]).pend.isSome = true ∧ (run P0 wakes [.start, .notif 8]).ret = none ∧
+    (run P0 wakes [.start, .notif 8, .advance 1001, .tick 0]).copies = [1001, 0] ∧
+    (run P0 wakes [.start, .notif 8, .advance 1001, .tick 0]).ret = none ∧
+    (run P0 wakes witness).ret = some (.ok 8, 1001) := by subst h; decide
 
 /-- With every acknowledgement lost the call never succeeds, although it was answered: all `1 + MAX_RETRANSMIT` copies go
     out, the entry is given up, and the call ends with its context. -/
-theorem observe_answered_but_never_acknowledged_fails :
-    (run P0 false [.start, .notif 8, .advance 1001, .tick 0, .advance 1000, .tick 0, .advance 1000, .tick 0, .cancel]).copies
+theorem observe_answered_but_never_acknowledged_fails (wakes : Bool) (h : wakes = false) :
+    (run P0 wakes [.start, .notif 8, .advance 1001, .tick 0, .advance 1000, .tick 0, .advance 1000, .tick 0, .cancel]).copies
       = [2001, 1001, 0] ∧
-    (run P0 false [.start, .notif 8, .advance 1001, .tick 0, .advance 1000, .tick 0, .advance 1000, .tick 0, .cancel]).ret
-      = some (.ctx, 3001) := by decide
+    (run P0 wakes [.start, .notif 8, .advance 1001, .tick 0, .advance 1000, .tick 0, .advance 1000, .tick 0, .cancel]).ret
+      = some (.ctx, 3001) := by subst h; decide
 
 /-! ## the property's conclusion, as the specification's judge states it, is false of this history -/
 
@@ -73,20 +80,79 @@ def historyFrom (P : Params) (wakes : Bool) : OState → List OEv → List Step
     before the attempts were exhausted and the call did not succeed with it (`no-success`).  (That a copy follows the response
     — the judge's `copy-after-stop`, which it would report next — is the third conjunct of
     `observe_response_before_ack_does_not_end_the_wait`.) -/
-theorem observe_entrance_violates_c06 : judge cfg0 (historyFrom P0 false {} witness) = .noSuccess := by decide
+theorem observe_entrance_violates_c06 (wakes : Bool) (h : wakes = false) :
+    judge cfg0 (historyFrom P0 wakes {} witness) = .noSuccess := by subst h; decide
 
 /-- the same history with the response ignored by the judge is fine: it is exactly the response that is mishandled -/
-theorem observe_entrance_fine_without_the_response :
-    judge cfg0 (historyFrom P0 false {} [.start, .advance 1001, .tick 0, .ack, .notif 8]) = .ok := by decide
+theorem observe_entrance_fine_without_the_response (wakes : Bool) (h : wakes = false) :
+    judge cfg0 (historyFrom P0 wakes {} [.start, .advance 1001, .tick 0, .ack, .notif 8]) = .ok := by subst h; decide
 
-/-- **Repair direction**: if the notification also removed the pending entry and woke the writer (what `doInternal`'s token
-    handler does since F21), the call returns the response at once, no further copy is written, the judge accepts. -/
-theorem waking_the_writer_would_repair_it :
+/-! ## the repaired shape (`wakes = true`) -/
+
+/-- **The repair on the witness**: the notification also removes the pending entry and wakes the writer (what `doInternal`'s
+    token handler does since F21, and `Conn.handle` for every entrance since the repair of F42): the call returns the
+    response at once, no further copy is written, the judge accepts - also with every acknowledgement lost. -/
+theorem waking_the_writer_repairs_it :
     (run P0 true [.start, .notif 8]).ret = some (.ok 8, 0) ∧
     (run P0 true witness).copies = [0] ∧
     judge cfg0 (historyFrom P0 true {} witness) = .ok ∧
     judge cfg0 (historyFrom P0 true {} [.start, .notif 8, .advance 1001, .tick 0, .advance 1000, .tick 0, .advance 1000, .tick 0,
       .cancel]) = .ok := by decide
+
+/-- **Today's source has the repaired shape** (regenerated fact; false again if the repair is taken out - then the witness
+    theorems above apply to `runToday`). -/
+theorem today_is_repaired : wakesToday = true := by decide
+
+/-- … so on today's source the witness history returns the response in the step of the notification and writes one copy. -/
+theorem today_witness_accepted :
+    (runToday P0 witness).ret = some (.ok 8, 0) ∧ (runToday P0 witness).copies = [0] ∧
+    judge cfg0 (historyFrom P0 wakesToday {} witness) = .ok := by decide
+
+/-- **The response ends the wait** - every parameter triple, every state in which `writeMessage` is waiting for the
+    acknowledgement (entry pending, call not returned), every notification: in that very step the entry is gone, the slot is
+    free, the call has returned the response (the first one, if one was already in the channel) at the current time, and no
+    copy was written. -/
+theorem repaired_response_ends_the_wait (P : Params) (s : OState) (tag : Nat)
+    (hw : s.writing = true) (hp : s.pend.isSome = true) (hr : s.ret = none) :
+    (Model.RetransmitObserve.step P true s (.notif tag)).pend = none ∧ (Model.RetransmitObserve.step P true s (.notif tag)).writing = false ∧
+    (Model.RetransmitObserve.step P true s (.notif tag)).ret = some (.ok (s.chan.getD tag), s.now) ∧
+    (Model.RetransmitObserve.step P true s (.notif tag)).copies = s.copies := by
+  cases hc : s.chan <;> simp [Model.RetransmitObserve.step, woken, hw, hp, hr, hc]
+
+/-- Nothing pending, nothing written: from a state whose call was started and whose entry is gone, no history writes a copy or
+    brings the entry back, and a result once returned stays (either flag). -/
+theorem no_copy_without_pending_entry (P : Params) (wakes : Bool) (evs : List OEv) :
+    ∀ (s : OState), s.started = true → s.pend = none → s.ret.isSome = true →
+      (evs.foldl (Model.RetransmitObserve.step P wakes) s).copies = s.copies ∧ (evs.foldl (Model.RetransmitObserve.step P wakes) s).pend = none ∧
+      (evs.foldl (Model.RetransmitObserve.step P wakes) s).ret = s.ret := by
+  induction evs with
+  | nil => intro s _ hp _; exact ⟨rfl, hp, rfl⟩
+  | cons e es ih =>
+    intro s hs hp hr
+    have key : (Model.RetransmitObserve.step P wakes s e).started = true ∧ (Model.RetransmitObserve.step P wakes s e).pend = none ∧ (Model.RetransmitObserve.step P wakes s e).ret = s.ret ∧
+        (Model.RetransmitObserve.step P wakes s e).copies = s.copies := by
+      cases e <;> simp [Model.RetransmitObserve.step, hs, hp, hr]
+    obtain ⟨k1, k2, k3, k4⟩ := key
+    have := ih (Model.RetransmitObserve.step P wakes s e) k1 k2 (by rw [k3]; exact hr)
+    simp only [List.foldl_cons]
+    exact ⟨by rw [this.1, k4], this.2.1, by rw [this.2.2, k3]⟩
+
+/-- **No copy after the response, and the call has succeeded with it** - whatever follows (passes at any time, late or
+    duplicated acknowledgements and notifications, a cancellation): the positive statement of C06 for this entrance in the
+    repaired shape, for every parameter triple and every continuation. -/
+theorem repaired_no_copy_after_the_response (P : Params) (s : OState) (tag : Nat) (evs : List OEv)
+    (hst : s.started = true) (hw : s.writing = true) (hp : s.pend.isSome = true) (hr : s.ret = none) :
+    (evs.foldl (Model.RetransmitObserve.step P true) (Model.RetransmitObserve.step P true s (.notif tag))).copies = s.copies ∧
+    (evs.foldl (Model.RetransmitObserve.step P true) (Model.RetransmitObserve.step P true s (.notif tag))).ret = some (.ok (s.chan.getD tag), s.now) := by
+  obtain ⟨h1, _, h3, h4⟩ := repaired_response_ends_the_wait P s tag hw hp hr
+  have hst' : (Model.RetransmitObserve.step P true s (.notif tag)).started = true := by
+    cases hc : s.chan <;> simp [Model.RetransmitObserve.step, woken, hw, hp, hr, hc, hst]
+  have := no_copy_without_pending_entry P true evs _ hst' h1 (by rw [h3]; rfl)
+  exact ⟨by rw [this.1, h4], by rw [this.2.2, h3]⟩
+
+/-- non-vacuity: the state after `start` satisfies the hypotheses -/
+example : (run P0 true [.start]).started = true ∧ (run P0 true [.start]).writing = true ∧
+    (run P0 true [.start]).pend.isSome = true ∧ (run P0 true [.start]).ret = none := by decide
 
 end CoapVerif.Findings.C06
 
@@ -96,5 +162,10 @@ open CoapVerif.Findings.C06
 #print axioms observe_answered_but_never_acknowledged_fails
 #print axioms observe_entrance_violates_c06
 #print axioms observe_entrance_fine_without_the_response
-#print axioms waking_the_writer_would_repair_it
+#print axioms waking_the_writer_repairs_it
+#print axioms today_is_repaired
+#print axioms today_witness_accepted
+#print axioms repaired_response_ends_the_wait
+#print axioms no_copy_without_pending_entry
+#print axioms repaired_no_copy_after_the_response
 end Audit
